@@ -186,7 +186,7 @@ def side_case(seed):
 def run(ctx):
     quick = ctx.tier == 'quick'
     lib.stage_proof(ctx, PROP_FILES, ['Check/C07.vo'])
-    n = 160 if quick else 2500
+    n = 160 if quick else 5000
     cases, metas = [], []
     for k in range(n):
         cs = ctx.rng.getrandbits(48)
@@ -207,7 +207,7 @@ def run(ctx):
         cases.append(lit)
         metas.append({'desc': {'gen': 'gen_int_case', 'case_seed': cs, 'case': d}, 'tags': {'op': d['which']}})
     bad = lib.stage_correspondence(ctx, 'solvers', REQ, 'check_C07', cases, metas)
-    n_side = 250 if quick else 5000
+    n_side = 250 if quick else 15000
     if bad:
         n_side *= 4
     seeds = [500] + [ctx.rng.getrandbits(48) for _ in range(n_side)]       # 500: replay of known finding F16
